@@ -303,8 +303,12 @@ static void check_line_readers(const std::string& path, const std::string& E, un
 		}
 		else if (variant == 4) {
 			nm = "TextFile f(p,READ); String s; while(f.readLine(s)) use(s)"; TextFile f(p, File::READ); String s;
-			while (guard-- > 0 && f.readLine(s)) got.push_back(vfx::S(s));
-			if (exp.back().empty()) exp.pop_back();
+			bool last = true;
+			while (guard-- > 0 && (last = f.readLine(s))) got.push_back(vfx::S(s));
+			// the empty line behind the last LF (or the one line of an empty file) may be announced or not: the statement fixes the sequence
+			// of lines, not the result for a call that finds nothing but the end of the file. Every other line must be delivered.
+			if (exp.back().empty() && got.size() + 1 == exp.size()) exp.pop_back();
+			if (!last) vf::add(W_READLINE_FALSE_AT_END); // what s holds after false is not specified: a line consumed by that call is missing in the sequence compared below
 			vf::add(W_READLINE_BOOL_IDIOM);
 		}
 		else { nm = "TextFile f(p); while(!f.end()) f.readLine('\\n')"; TextFile f(p); while (!f.end() && guard-- > 0) got.push_back(vfx::S(f.readLine('\n'))); vf::add(W_READLINE_CHAR); }
@@ -521,9 +525,10 @@ static void utf16_put(std::string& s, uint32_t c, bool be) {
 	for (int i = 0; i < n; i++) { if (be) { s += (char)(u[i] >> 8); s += (char)(u[i] & 0xFF); } else { s += (char)(u[i] & 0xFF); s += (char)(u[i] >> 8); } }
 }
 static std::vector<uint32_t> bom_seq(int len, int idx) { std::vector<uint32_t> v; for (int i = 0; i < len; i++) { v.push_back(SCALARS[idx % NSCALAR]); idx /= NSCALAR; } return v; }
-static void bom_build(int enc, const std::vector<uint32_t>& seq, std::string& raw, std::string& expect) {
+static void bom_build(int enc, const std::vector<uint32_t>& seq, std::string& raw, std::string& expect, std::string* unfolded = 0) {
 	raw.clear(); expect.clear();
 	std::string u8; for (size_t i = 0; i < seq.size(); i++) utf8_put(u8, seq[i]);
+	if (unfolded) *unfolded = u8;
 	if (enc == 0) { raw = "\xef\xbb\xbf" + u8; expect = u8; return; }
 	raw = enc == 1 ? "\xff\xfe" : "\xfe\xff";
 	for (size_t i = 0; i < seq.size(); i++) utf16_put(raw, seq[i], enc == 2);
@@ -533,7 +538,9 @@ static void bom_build(int enc, const std::vector<uint32_t>& seq, std::string& ra
 static void check_bom_seq(int enc, const std::vector<uint32_t>& seq, int via, const std::string& kase) {
 	vf::cur(kase);
 	vf::asan_clear();
-	std::string raw, expect; bom_build(enc, seq, raw, expect);
+	// expect = the text with CR LF folded to LF (what the UTF-16 reader of the library does today), plain = the text as it is: the statement
+	// asks for "the same text in UTF-8", so both are accepted (each as a whole: a text folded in some places only is neither)
+	std::string raw, expect, plain; bom_build(enc, seq, raw, expect, &plain);
 	std::string path = wdir() + "/b.txt";
 	::unlink(path.c_str());
 	if (via == 0) p_write(path, raw); else if (!File(vfx::A(path)).put(BA(raw))) bad("write_result", "put() returned false", kase);
@@ -542,8 +549,8 @@ static void check_bom_seq(int enc, const std::vector<uint32_t>& seq, int via, co
 	String p = vfx::A(path);
 	const char* en[] = { "UTF-8", "UTF-16LE", "UTF-16BE" };
 	std::string rawd = raw.size() <= 64 ? vf::hex(raw) : brief(raw);
-	{ String t = TextFile(p).text(); vf::add(C_EVAL); if (vfx::S(t) != expect) bad("bom_text", fmt("text() of a %s BOM file %s: ", en[enc], rawd.c_str()) + firstdiff(vfx::S(t), expect), kase); }
-	{ TextFile f(p, File::READ); String t = f.text(); vf::add(C_EVAL); if (vfx::S(t) != expect) bad("bom_text", fmt("TextFile f(p,READ); f.text() of a %s BOM file %s: ", en[enc], rawd.c_str()) + firstdiff(vfx::S(t), expect), kase); }
+	{ String t = TextFile(p).text(); vf::add(C_EVAL); if (vfx::S(t) != expect && vfx::S(t) != plain) bad("bom_text", fmt("text() of a %s BOM file %s: ", en[enc], rawd.c_str()) + firstdiff(vfx::S(t), expect), kase); }
+	{ TextFile f(p, File::READ); String t = f.text(); vf::add(C_EVAL); if (vfx::S(t) != expect && vfx::S(t) != plain) bad("bom_text", fmt("TextFile f(p,READ); f.text() of a %s BOM file %s: ", en[enc], rawd.c_str()) + firstdiff(vfx::S(t), expect), kase); }
 	{ ByteArray c = File(p).content(); vf::add(C_EVAL); if (SB(c) != raw) bad("content", "content() of a BOM file: " + firstdiff(SB(c), raw), kase); }
 	vf::add(enc == 0 ? W_BOM8 : enc == 1 ? W_BOM16LE : W_BOM16BE);
 	for (size_t i = 0; i < seq.size(); i++) if (seq[i] > 0xFFFF && enc) { vf::add(W_SURROGATE); break; }
@@ -842,21 +849,21 @@ static void check_move(long size, int dest, int rmode, int api, int cls = -1, bo
 		else if (ok && !dst_ok) bad("move_onto_itself", what + " returned true but the destination name does not hold the content", kase);
 		asan_check("move", kase); rm_tree(e.root); return;
 	}
-	if (rmode == 2) {
-		if (intercepted) vf::add(W_MOVE_EACCES);
-		// refused: nothing may have changed
-		if (ok) bad("move_result", what + " returned true", kase);
-		if (!src_ok) bad("move_lost_content", what + ": the source no longer holds its content", kase);
-		if (e.dst_preexists ? (!dst_there || d != e.old) : dst_there) bad("move_content", what + ": the destination was modified although the move was refused", kase);
+	// true: the content is under the destination name and the source name is gone (documented: "moves or renames"); false: the content is
+	// still under the source name. When rename() is refused (EACCES) the library may give up - then nothing may have changed - or get the
+	// file there another way (copy and delete): the statement only asks that the content is preserved.
+	if (intercepted) vf::add(rmode == 0 ? W_MOVE_RENAME_OK : rmode == 1 ? W_MOVE_EXDEV : W_MOVE_EACCES);
+	if (intercepted && cls >= 0 && rmode != 2) cc_witness(e.content, e.holes, dest, rmode == 0 ? 1 : 2);
+	bool dst_untouched = e.dst_preexists ? (dst_there && d == e.old) : !dst_there;
+	if (rmode == 2 && !ok && src_ok && dst_untouched) { /* refused, nothing changed */ }
+	else if (!dst_ok && !src_ok) bad("move_lost_content", what + ": neither source nor destination holds the content" + (dst_there ? "; destination: " + firstdiff(d, e.content) : std::string("; destination missing")), kase);
+	else if (!dst_ok) {
+		if (rmode == 2) bad(ok ? "move_result" : "move_content", what + (ok ? " returned true but the destination does not hold the content" : ": the destination was modified although the move was refused"), kase);
+		else bad("move_content", what + ": " + (dst_there ? "destination differs: " + firstdiff(d, e.content) : std::string("destination missing, source untouched")) + (ok ? " (returned true)" : ""), kase);
 	} else {
-		if (intercepted) vf::add(rmode == 0 ? W_MOVE_RENAME_OK : W_MOVE_EXDEV);
-		if (intercepted && cls >= 0) cc_witness(e.content, e.holes, dest, rmode == 0 ? 1 : 2);
-		if (!dst_ok && !src_ok) bad("move_lost_content", what + ": neither source nor destination holds the content" + (dst_there ? "; destination: " + firstdiff(d, e.content) : std::string("; destination missing")), kase);
-		else if (!dst_ok) bad("move_content", what + ": " + (dst_there ? "destination differs: " + firstdiff(d, e.content) : std::string("destination missing, source untouched")) + (ok ? " (returned true)" : ""), kase);
-		else {
-			if (src_there) bad("move_source_left", what + ": destination written but the source still exists", kase);
-			else if (!ok) bad("move_reports_failure_after_moving", what + ": the file was moved (destination holds the content, source is gone) but the call returned false", kase);
-		}
+		// a copy at the destination with the source kept and the answer false (e.g. the source could not be deleted) loses nothing and says so
+		if (src_there && ok) bad("move_source_left", what + " returned true: destination written but the source still exists", kase);
+		else if (!src_there && !ok) bad("move_reports_failure_after_moving", what + ": the file was moved (destination holds the content, source is gone) but the call returned false", kase);
 	}
 	asan_check("move", kase);
 	rm_tree(e.root);
@@ -933,14 +940,19 @@ struct HistSys {
 	std::string path;
 	// model. cached/csize: f.size(), content() or text() asked the file system for the size when the file had csize bytes (an
 	// implementation may keep that answer until close()); rwlast: last transfer on a read+write handle (0 none/positioned, 1 read, 2 write)
-	std::string L; bool exists; int mode; bool cached; size_t csize; size_t pos; bool eof; bool flushed; int rwlast;
+	std::string L; bool exists; int mode; bool cached; size_t csize; size_t pos; int eof; bool flushed; int rwlast;
+	// eof: what end() has to answer. 0 false: bytes (or the empty line behind the last LF) are still to come - the documented loop
+	// while(!f.end()) must go on; 1 true: a read came up short / the last line was delivered - that loop must stop; 2 not determined:
+	// after a read of exactly the bytes that were left, and after the one-shot readers content() / text() / lines() / firstBytes(k >= size)
+	// (which may read to the end in one exact request, in blocks until a short one, or clamp k): nothing is said about end() there
+	enum { EOF_NO, EOF_YES, EOF_ANY };
 	// The search is level-synchronous: every history of a level is one stored history h plus one op, and h itself was run (and observed
 	// after its last step) one level earlier. Observations do not touch the long-lived object, so while a level is expanded only the
 	// state after the new op is observed; predict() is called exactly there (after h was replayed, before h+op runs). Replays of a case
 	// string and confirmation runs never call predict(): they observe after every step.
 	int steps; int observe_at;
 
-	HistSys() : F(0), exists(false), mode(CL), cached(false), csize(0), pos(0), eof(false), flushed(true), rwlast(0), steps(0), observe_at(-1) {
+	HistSys() : F(0), exists(false), mode(CL), cached(false), csize(0), pos(0), eof(EOF_NO), flushed(true), rwlast(0), steps(0), observe_at(-1) {
 		pieces.push_back("");
 		pieces.push_back("\xbf"); // one byte; completes the partial BOM below to EF BB BF
 		pieces.push_back("bc\n");
@@ -967,7 +979,7 @@ struct HistSys {
 		path = wdir() + "/h.txt";
 		::unlink(path.c_str());
 		std::string().swap(L);
-		exists = false; mode = CL; cached = false; csize = 0; pos = 0; eof = false; flushed = true; rwlast = 0; steps = 0;
+		exists = false; mode = CL; cached = false; csize = 0; pos = 0; eof = EOF_NO; flushed = true; rwlast = 0; steps = 0;
 		F = new TextFile(vfx::A(path));
 	}
 	bool pristine() const { return mode == CL && !cached; }
@@ -977,7 +989,7 @@ struct HistSys {
 	static std::string as_text(const std::string& s) { return starts_with_bom(s) && !bom16(s) ? s.substr(3) : s; }
 	bool enabled(int op) {
 		const Op& o = ops[op];
-		bool fresh_read = mode == CL || (mode == RD && pos == 0 && !eof);
+		bool fresh_read = mode == CL || (mode == RD && pos == 0 && eof == EOF_NO);
 		switch (o.k) {
 		case FW_PUT: case FW_FWRITE: case FW_FSTREAM_S: case FW_FSTREAM_C: case FW_TPUT: case FW_TAPPEND: case FW_TSTREAM: case FW_FAPPEND:
 			return pristine(); // a second object writes only while the long-lived one holds neither a handle nor cached stat data
@@ -1055,7 +1067,7 @@ struct HistSys {
 		if (starts_with_bom(L)) vf::add(W_H_BOM_LED);
 	}
 	// open() on an object that holds a handle: that handle is closed, so everything written through it is in the file
-	void reopened() { if (mode != CL) { vf::add(W_H_OPEN_WHILE_OPEN); if (!flushed) vf::add(W_H_OPEN_WHILE_UNFLUSHED); } flushed = true; pos = 0; eof = false; rwlast = 0; }
+	void reopened() { if (mode != CL) { vf::add(W_H_OPEN_WHILE_OPEN); if (!flushed) vf::add(W_H_OPEN_WHILE_UNFLUSHED); } flushed = true; pos = 0; eof = EOF_NO; rwlast = 0; }
 	bool apply(int op, std::string& err) {
 		const Op& o = ops[op];
 		const std::string& pc = pieces[(o.k <= FW_FAPPEND || (o.k >= F_PUT && o.k <= F_BPUT)) ? o.a : 0];
@@ -1073,7 +1085,7 @@ struct HistSys {
 		case F_OPEN_A: reopened(); if (!F->open(File::APPEND)) { err = "open(APPEND) returned false"; return false; } exists = true; mode = AP; break;
 		case F_OPEN_R: reopened(); if (!F->open(File::READ)) { err = "open(READ) returned false"; return false; } mode = RD; break;
 		case F_OPEN_RW: reopened(); if (!F->open(File::RW)) { err = "open(RW) returned false"; return false; } mode = RW; break;
-		case F_CLOSE: F->close(); mode = CL; cached = false; pos = 0; eof = false; flushed = true; rwlast = 0; break;
+		case F_CLOSE: F->close(); mode = CL; cached = false; pos = 0; eof = EOF_NO; flushed = true; rwlast = 0; break;
 		case F_FLUSH: F->flush(); flushed = true; rwlast = 0; break;
 		case F_PUT: case F_STREAM: case F_BPUT: {
 			if (cached) vf::add(W_H_CACHED_SIZE_THEN_WRITE);
@@ -1090,36 +1102,36 @@ struct HistSys {
 			wrote(pc);
 			break; }
 		case F_WRITEP: { int m = F->File::write(pc.data(), (int)pc.size()); if (m != (int)pc.size()) { err = fmt("write(ptr,%d) returned %d", (int)pc.size(), m); return false; } wrote(pc); break; }
-		case F_CONTENT: { if (cached && csize != L.size()) vf::add(W_H_SIZE_CACHE_OUTDATED); ByteArray c = F->content(); if (SB(c) != L) { err = "f.content(): " + firstdiff(SB(c), L); return false; } mode = RD; pos = L.size(); eof = false; cached = true; csize = L.size(); vf::add(W_H_REUSED_OBJECT_READ); break; }
+		case F_CONTENT: { if (cached && csize != L.size()) vf::add(W_H_SIZE_CACHE_OUTDATED); ByteArray c = F->content(); if (SB(c) != L) { err = "f.content(): " + firstdiff(SB(c), L); return false; } mode = RD; pos = L.size(); eof = EOF_ANY; cached = true; csize = L.size(); vf::add(W_H_REUSED_OBJECT_READ); break; }
 		case F_TEXT: {
 			if (cached && csize != L.size()) vf::add(W_H_SIZE_CACHE_OUTDATED);
 			String t = F->text(); std::string e = as_text(L);
 			if (vfx::S(t) != e) { err = "f.text(): " + firstdiff(vfx::S(t), e); return false; }
-			mode = RD; pos = L.size(); eof = e.size() != L.size(); // a BOM was skipped: the read of size() bytes came up short
+			mode = RD; pos = L.size(); eof = EOF_ANY;
 			cached = true; csize = L.size(); vf::add(W_H_REUSED_OBJECT_READ); break; }
 		case F_LINES: case F_READLOOP: {
 			std::vector<std::string> ref = ref_lines(L), got;
 			if (o.k == F_LINES) { Array<String> a = F->lines(); for (int i = 0; i < a.length(); i++) got.push_back(vfx::S(a[i])); }
 			else { int guard = (int)ref.size() + 5; while (!F->end() && guard-- > 0) got.push_back(vfx::S(F->readLine())); }
 			if (got != ref) { size_t i = 0; while (i < got.size() && i < ref.size() && got[i] == ref[i]) i++; err = fmt("%s gave %d lines, reference %d; first differing line %d", o.k == F_LINES ? "f.lines()" : "readLine loop", (int)got.size(), (int)ref.size(), (int)i) + (i < got.size() && i < ref.size() ? ": " + firstdiff(got[i], ref[i]) : std::string()); return false; }
-			mode = RD; pos = L.size(); eof = true; vf::add(W_H_REUSED_OBJECT_READ);
+			mode = RD; pos = L.size(); eof = o.k == F_READLOOP ? EOF_YES : EOF_ANY; vf::add(W_H_REUSED_OBJECT_READ); // the loop above ended because end() said so
 			break; }
 		case F_SIZE: {
 			if (writing()) vf::add(W_H_SIZE_WHILE_WRITING);
 			if (cached && csize != L.size()) vf::add(W_H_SIZE_CACHE_OUTDATED);
 			Long s = F->size(); if (s != (Long)L.size()) { err = fmt("f.size() = %lld, %d bytes were written", (long long)s, (int)L.size()); return false; } cached = true; csize = L.size(); break; }
-		case F_FIRST: { ByteArray c = F->firstBytes(o.a); std::string e = L.substr(0, (size_t)o.a); if (SB(c) != e) { err = fmt("f.firstBytes(%d): ", o.a) + firstdiff(SB(c), e); return false; } mode = RD; pos = e.size(); eof = (size_t)o.a > L.size(); break; }
-		case F_READ: { std::string buf((size_t)o.a, 0); int r = F->read(&buf[0], o.a); std::string e = L.substr(pos, (size_t)o.a); if (r != (int)e.size() || buf.substr(0, (size_t)std::max(r, 0)) != e) { err = fmt("f.read(buf,%d) at offset %d returned %d: ", o.a, (int)pos, r) + firstdiff(buf.substr(0, (size_t)std::max(r, 0)), e); return false; } if ((size_t)o.a > L.size() - pos) eof = true; pos += e.size(); vf::add(W_H_STREAM_READ); if (mode == RW) { rwlast = 1; vf::add(W_H_RW_READ); } break; }
+		case F_FIRST: { ByteArray c = F->firstBytes(o.a); std::string e = L.substr(0, (size_t)o.a); if (SB(c) != e) { err = fmt("f.firstBytes(%d): ", o.a) + firstdiff(SB(c), e); return false; } mode = RD; pos = e.size(); eof = (size_t)o.a < L.size() ? EOF_NO : EOF_ANY; break; }
+		case F_READ: { std::string buf((size_t)o.a, 0); int r = F->read(&buf[0], o.a); std::string e = L.substr(pos, (size_t)o.a); if (r != (int)e.size() || buf.substr(0, (size_t)std::max(r, 0)) != e) { err = fmt("f.read(buf,%d) at offset %d returned %d: ", o.a, (int)pos, r) + firstdiff(buf.substr(0, (size_t)std::max(r, 0)), e); return false; } if ((size_t)o.a > L.size() - pos) eof = EOF_YES; else if ((size_t)o.a == L.size() - pos) eof = EOF_ANY; pos += e.size(); vf::add(W_H_STREAM_READ); if (mode == RW) { rwlast = 1; vf::add(W_H_RW_READ); } break; }
 		case F_READLINE: {
 			String s = F->readLine();
 			size_t q = L.find('\n', pos);
 			std::string e;
-			if (q == std::string::npos) { e = L.substr(pos); pos = L.size(); eof = true; }
+			if (q == std::string::npos) { e = L.substr(pos); pos = L.size(); eof = EOF_YES; }
 			else { size_t en = q; if (en > pos && L[en - 1] == '\r') en--; e = L.substr(pos, en - pos); pos = q + 1; }
 			if (vfx::S(s) != e) { err = "f.readLine(): " + firstdiff(vfx::S(s), e); return false; }
 			vf::add(W_H_STREAM_READ);
 			break; }
-		case F_SEEK0: F->seek(0); pos = 0; eof = false; if (mode == RW) { flushed = true; rwlast = 0; } break; // positioning writes the buffered bytes out
+		case F_SEEK0: F->seek(0); pos = 0; eof = EOF_NO; if (mode == RW) { flushed = true; rwlast = 0; } break; // positioning writes the buffered bytes out
 		}
 		steps++;
 		if (observe_at >= 0 && steps != observe_at) return true;
@@ -1129,7 +1141,7 @@ struct HistSys {
 		if (mode == RD || mode == RW) {
 			bool e = F->end();
 			if (e) vf::add(W_H_EOF_SEEN);
-			if (e != eof) { err = fmt("f.end() = %d, expected %d (offset %d of %d)", (int)e, (int)eof, (int)pos, (int)L.size()); return false; }
+			if (eof != EOF_ANY && e != (eof == EOF_YES)) { err = fmt("f.end() = %d, expected %d (offset %d of %d)", (int)e, (int)eof, (int)pos, (int)L.size()); return false; }
 		}
 		if (!exists) return true;
 		if (mode == CL || mode == RD || flushed) {
@@ -1154,7 +1166,11 @@ struct HistSys {
 	}
 	std::string canon() {
 		// model state + the implementation state the model does not define (handle present, cached stat size): merging is sound only if these agree
-		return fmt("%d|%d|%d|%d|%d|%d|r%d|h%d|i%lld|", (int)exists, mode, (int)cached, (int)(mode == RD || mode == RW ? pos : 0), (int)eof, (int)flushed, rwlast, (int)(F->_file != 0), (long long)F->_info.size) + L;
+		// (where the model leaves end() open, the flag the implementation really holds is part of the state; _info is a private field, read
+		// only to keep states with different cached stat data apart - never compared)
+		bool open_now = !!*F;
+		int ef = eof != EOF_ANY ? eof : (open_now && (mode == RD || mode == RW)) ? 2 + (int)F->File::end() : 2;
+		return fmt("%d|%d|%d|%d|%d|%d|r%d|h%d|i%lld|", (int)exists, mode, (int)cached, (int)(mode == RD || mode == RW ? pos : 0), ef, (int)flushed, rwlast, (int)open_now, (long long)F->_info.size) + L;
 	}
 };
 
